@@ -35,6 +35,12 @@ pub fn retired_token_phase(w: &mut crate::world::World, r: &mut Rng, lane: Lane)
         }
     }
     for ((ei, pair), n) in seen {
+        // (tokens are a function of the CID: an issuer with very short CIDs hands out the same
+        // token again and again, also for the handshake CID whose token is not visible here)
+        let issuer_short = n.srcs.iter().any(|a| w.eps.iter().any(|e| e.addrs.contains(a) && e.spec.cid_len < 4));
+        if issuer_short {
+            continue;
+        }
         let alive = w.eps[ei].conns.values().any(|c| c.pair == pair && !c.c.is_drained());
         let dst = w.eps[ei].addr;
         for (seq, tok) in &n.tokens {
